@@ -2,6 +2,8 @@ package gomatrixserverlib
 
 import (
 	"encoding/json"
+	"reflect"
+	"strings"
 
 	"github.com/matrix-org/gomatrixserverlib/spec"
 )
@@ -148,8 +150,14 @@ type unredactableEvent interface {
 }
 
 func redactEventJSON[T unredactableEvent](eventJSON []byte, unredactableEvent T, eventTypeToKeepContentFields map[string][]string) ([]byte, error) {
+	// The redaction algorithm lists exact key names, but encoding/json also matches other spellings of a
+	// struct field's name (case variants such as "Event_id" or "Sender"): keep only the exact ones.
+	eventJSON, err := exactFieldsOnly(eventJSON, unredactableEvent)
+	if err != nil {
+		return nil, err
+	}
 	// Unmarshalling into a struct will discard any extra fields from the event.
-	if err := json.Unmarshal(eventJSON, unredactableEvent); err != nil {
+	if err = json.Unmarshal(eventJSON, unredactableEvent); err != nil {
 		return nil, err
 	}
 	newContent := map[string]interface{}{}
@@ -171,4 +179,22 @@ func redactEventJSON[T unredactableEvent](eventJSON []byte, unredactableEvent T,
 	unredactableEvent.SetContent(newContent)
 	// Return the redacted event encoded as JSON.
 	return json.Marshal(&unredactableEvent)
+}
+
+// exactFieldsOnly returns the JSON object restricted to the members whose names are exactly the JSON
+// names of the fields of the given keep struct.
+func exactFieldsOnly(eventJSON []byte, keepStruct interface{}) ([]byte, error) {
+	var members map[string]json.RawMessage
+	if err := json.Unmarshal(eventJSON, &members); err != nil {
+		return nil, err
+	}
+	fields := reflect.TypeOf(keepStruct).Elem()
+	exact := make(map[string]json.RawMessage, fields.NumField())
+	for i := 0; i < fields.NumField(); i++ {
+		name, _, _ := strings.Cut(fields.Field(i).Tag.Get("json"), ",")
+		if value, ok := members[name]; ok {
+			exact[name] = value
+		}
+	}
+	return json.Marshal(exact)
 }
